@@ -17,6 +17,45 @@ CHECKS = {
         "Trusts json, the generator's well-typedness assumptions (return address >= 1, direct/macro offsets disjoint).",
         "DESIGN.md 4 C14",
     ),
+    "C01": (
+        "translation_validation",
+        "Hypothesis program generator + reference semantics; exact all-paths equivalence of flow graphs",
+        "Every generated program is validated over all paths: the machine model of the compiled ops must be trace-tree "
+        "equal (bisimilar) to the reference semantics of the source written from docs/language_spec.rst, incl. opcode "
+        "choice, parameter order and routine tables. The program space is sampled (thousands per run, anchor shapes "
+        "weighted), each sample decided exactly.",
+        "Trusts the reference semantics S / Appendix A table (vf/model.py, vf/spec_tables.py), the renderer (self-tested "
+        "render->parse identity) and the generated ANTLR parser. Depth <= 4, control statements inside with-blocks and "
+        "op-free cycles are outside the domain.",
+        "DESIGN.md 4 C01",
+    ),
+    "C03": (
+        "exploration",
+        "Hypothesis program generator (with macros) + structural invariant over compile() results",
+        "Invariant (unique offsets, closed jump targets as last int parameter, no pseudo ops, equal table lengths) checked "
+        "on thousands of generated compilation results per run, for the ExplorerScript compiler and for the SsbScript "
+        "compiler on the printed form of the same op lists.",
+        "Jump-carrying kinds as in DESIGN.md Appendix A; rejected programs are outside the quantifier.",
+        "DESIGN.md 4 C03",
+    ),
+    "C10": (
+        "exploration",
+        "Hypothesis: valid programs, token-level corruptions, injected static errors, degenerate files, arbitrary text; exception-type oracle",
+        "Generated inputs of five classes; the call must return or raise one of the three documented exception types, and "
+        "every program with one injected static error from the property's list must be rejected. A CLI stage checks exit "
+        "status / stderr of python -m explorerscript.cli.compile on a sample.",
+        "Each injected error is statically meaningless by construction (snippets in vf/checks/c10.py); ids > 60 not generated.",
+        "DESIGN.md 4 C10",
+    ),
+    "C16": (
+        "exploration",
+        "Hypothesis metamorphic testing: two independent re-spellings of one token sequence must compile identically",
+        "Each generated program is rendered twice with independent draws of layout, comments, label sigil, routine header "
+        "form, trailing commas, integer base, decimal leading zeros and quote style; ops, jump structure, routine tables "
+        "and position-mark values must be identical.",
+        "Renderer inserts separators only between tokens; trailing zeros of decimals are significant; committed generated parser = grammar.",
+        "DESIGN.md 4 C16",
+    ),
 }
 
 NOT_YET = {}
